@@ -307,6 +307,34 @@ def native(seed=0):
                                 recorded_iterations_max=float(its.max()) if len(its) else None))
             if not expect_raise and raised:
                 bad.append(dict(what="unexpected non-convergence error", budget=budget, tolerance=tol))
+    # every ACCEPTED step - in the thermalisation stage as well as in the recorded one - ends with a converged induced potential: the state the
+    # recorded stage starts from (frame 0) is the last thermalisation step.  Each call of the real update() is checked through a recording subclass.
+    try:
+        tol_s = 1e-5
+
+        class Rec(TDGLSolver):
+            calls = []
+
+            def update(self, state, running_state, dt, **kw):
+                out = super().update(state, running_state, dt, **kw)
+                A_ind, js, jn = np.asarray(out[5]), np.asarray(out[3]), np.asarray(out[4])
+                J_site_ = self.device.mesh.get_quantity_on_site(js + jn)
+                K_ = np.full((self.num_edges, 2), np.nan)
+                get_A_induced_numba(J_site_, np.asarray(self.areas), np.asarray(self.sites), np.asarray(self.edge_centers), K_)
+                err_ = float(np.max(np.linalg.norm(K_ - A_ind, axis=1) / np.maximum(np.linalg.norm(A_ind, axis=1), 1e-20)))
+                Rec.calls.append((dict(state).get("step"), err_))
+                return out
+        with tempfile.TemporaryDirectory() as td:
+            o_s = tdgl.SolverOptions(solve_time=0.15, skip_time=0.15, output_file=os.path.join(td, "th.h5"), include_screening=True, screening_tolerance=tol_s, save_every=20)
+            Rec(dev, o_s, applied_vector_potential=0.6).solve()
+        n += 1
+        worst = max((e for _, e in Rec.calls), default=0.0)
+        # the exit test compares consecutive iterates; the mismatch of the accepted iterate with the sum over its own currents is a modest multiple of it
+        if not Rec.calls or worst > 50 * tol_s:
+            bad.append(dict(what="a step was accepted (thermalisation or recorded stage) whose induced potential does not reproduce the sum over its currents to the requested tolerance",
+                            tolerance=tol_s, worst_relative_mismatch=worst, steps=len(Rec.calls), skip_time=0.15))
+    except Exception as e:  # noqa
+        bad.append(dict(what="screened run with a thermalisation stage failed", error=repr(e)[:300]))
     logging.disable(logging.NOTSET)
     return bad, n
 
